@@ -171,8 +171,44 @@ def run_property(pid, module, tier, facts=None, write=True, replay=None):
                       **out.get('stats', {})),
         exhaustive=True,
     )
+    if tier == 'thorough' and write:
+        # checker self-test: mutants / seeded changes that target this property must be caught on a scratch copy of the
+        # CURRENT tree, benign edits must stay silent.  Never produces a VIOLATION line.
+        try:
+            import selftest
+            base = {pid: {r.key for r in results if not r.ok}}
+            rows = selftest.run([pid], base)
+            st = selftest.summarise(rows, pid)
+            cov['selftest'] = st
+            cov['evaluations'] = obligations + st['mutants_applied'] + st['benign_applied']
+            lines.append('SELFTEST %s: %d/%d broken variants caught, %d/%d benign edits silent, %d stale, survivors=%s noisy=%s' % (
+                pid, st['mutants_killed'], st['mutants_applied'], st['benign_applied'] - len(st['benign_noisy']), st['benign_applied'],
+                len(st['stale_patches']), st['survivors'], st['benign_noisy']))
+        except Exception as e:
+            cov['selftest'] = dict(error=repr(e)[:300])
+            lines.append('SELFTEST %s could not run: %r' % (pid, e))
+        if hasattr(module, 'thorough'):
+            try:
+                extra = module.thorough(ctx)
+                cov['thorough'] = extra.get('stats', {})
+                for r in extra.get('results', []):
+                    results.append(r)
+                    if not r.ok and (pid, r.key) not in known:
+                        violations.append(r)
+                        name = '%s-%s-%d.json' % (pid, re.sub(r'[^A-Za-z0-9.]+', '_', r.rule), len(violations))
+                        path = os.path.join(REPLAY_DIR, name)
+                        with open(path, 'w') as fh:
+                            json.dump(dict(property=pid, **r.to_json(), tree=facts.src_hash), fh, indent=1)
+                        lines.append('VIOLATION property=%s replay=%s' % (pid, path))
+                        lines.append('  rule %s: %s' % (r.rule, r.msg))
+                cov['obligations'] = len(results)
+                cov['discharged'] = sum(1 for r in results if r.ok)
+            except Exception as e:
+                cov['thorough'] = dict(error=repr(e)[:300])
+                lines.append('thorough extras of %s could not run: %r' % (pid, e))
+        wall = time.time() - t0
     ev = dict(property_id=pid, tier=tier, seed=seed, level='other', coverage=cov,
-              assumptions=out.get('assumptions', []), wall_s=round(wall, 3), violations=len(violations))
+              assumptions=out.get('assumptions', []), wall_s=round(time.time() - t0, 3), violations=len(violations))
     if write:
         os.makedirs(EVIDENCE_DIR, exist_ok=True)
         with open(os.path.join(EVIDENCE_DIR, pid + '.json'), 'w') as fh:
